@@ -154,12 +154,6 @@ Proof.
   destruct (Hc q Hcq) as [E | Hbusy]; [congruence|]. exact Hbusy.
 Qed.
 
-(** empty a publish slot (puback; first half of pubrec) — the collision may be left dangling on
-    that id, which the caller repairs *)
-Record InvNoColl (s : state) : Prop := {
-  n_inv : Inv (set_collision s None);
-}.
-
 Lemma inv_drop_collision s : Inv s -> Inv (set_collision s None).
 Proof. intros I. constructor; sproj; try apply I. intros p H. discriminate. Qed.
 
